@@ -51,6 +51,12 @@ CHECKS = {
               "table regenerated from the source; NaN comparison value selects nothing; model tied to the code on literal class models, "
               "oracle against Condition.evaluate over hashable/unhashable/non-finite/Enum/object comparison values"),
         technique='Lean 4 proof over a hand model + generated operator table + differential correspondence', ref='4 C11'),
+    'C12': dict(
+        text=("Lean theorems: merge specification (own setting wins, else root's) for every modelled mergeable setting, special "
+              "attributes never inherited, recursive=False hands nothing down, the travelling config passes unchanged through every "
+              "container and nested instance on dump and load; attribute sets regenerated from AbstractMeta; model tied to the code over "
+              "the settings lattice x shapes x binding styles"),
+        technique='Lean 4 proof over a hand model + generated attribute sets + differential correspondence', ref='4 C12'),
     'C13': dict(
         text=("Lean theorems: a dict whose tag key holds K's tag is loaded by K's loader for every position of K in the Union and any "
               "other members (dispatch on the tag alone); unassigned / missing tags give ParseError; the tag key resolves to 'ignored' "
